@@ -13,7 +13,7 @@ import vlib
 
 LEVEL = "model_checking"
 
-DEFECTS = ["SharedMatchSet", "EmptyServerName", "IfGivenForRequire", "PlainWhenNotReady", "SkipVerifyLeftOn", "StaleOnEqualHash", "InspectorLagsUpdate"]
+DEFECTS = ["SharedMatchSet", "EmptyServerName", "IfGivenForRequire", "PlainWhenNotReady", "SkipVerifyLeftOn", "StaleOnEqualHash", "InspectorLagsUpdate", "PoolCachedByPath"]
 
 
 def mismatches(txt):
@@ -23,13 +23,21 @@ def mismatches(txt):
     return out
 
 
+def runs(c):
+    """how many times the driver executes a case: a case that says where its material comes from once, another
+    update history twice (static and SDS backed contexts), anything else once"""
+    explicit = ("casrc" in c["ctxs"][0]) if c["side"] == "srv" else ("casrc" in c["cfg"])
+    return 1 if explicit or not c["upds"] else 2
+
+
 def brief(mgr):
     if not mgr:
         return None
     return dict(insp=mgr.get("insp"), ctxs=[dict(names=[".".join(n) for n in c["names"]], server_name=".".join(c["sn"]),
                                                   alpn=c["alpn"], ready=c["ready"], verify_client=c["verify"],
                                                   require_client_cert=c["require"], ca=c["ca"], kind=c.get("kind"),
-                                                  cert_layout=c.get("layout")) for c in mgr["ctxs"]])
+                                                  cert_layout=c.get("layout"), ca_source=c.get("casrc"),
+                                                  cert_source=c.get("certsrc")) for c in mgr["ctxs"]])
 
 
 def run(ctx):
@@ -59,10 +67,9 @@ def run(ctx):
     with open(cases) as fh:
         for ln in fh:
             c = json.loads(ln)
-            n_direct += 2 if c["upds"] else 1
+            n_direct += runs(c)
             if c["side"] == "up":
-                if not c["upds"]:      # cluster TLS updates are replayed in direct mode only
-                    ups.append(ln)
+                ups.append((c, ln))        # e2e: cluster TLS updates go through the running cluster manager
                 continue
             k = json.dumps([c["ctxs"], c["insp"], c["upds"]], sort_keys=True)
             if k not in groups:
@@ -81,9 +88,9 @@ def run(ctx):
         for k in keep:
             for _, ln in groups[k]:
                 fh.write(ln)
-        for ln in ups:
+        for _, ln in ups:
             fh.write(ln)
-    n_e2e = sum(len(groups[k]) * (2 if groups[k][0][0]["upds"] else 1) for k in keep) + len(ups)
+    n_e2e = sum(len(groups[k]) * runs(groups[k][0][0]) for k in keep) + sum(runs(c) for c, _ in ups)
     e2e_trace = os.path.join(ctx.tmp, "c13_e2e.ndjson")
     for attempt in (1, 2):
         try:
@@ -114,7 +121,8 @@ def run(ctx):
         ctx.cov.setdefault("updates_pushed", {})[part] = {
             path: sum(1 for e in evs if e["ev"] == "upd" and e["path"] == path) +
                   sum(1 for e in evs if e["ev"] == "up" for u in e.get("upds", []) if u["path"] == path)
-            for path in ("sds-push", "config-update")}
+            for path in ("sds-push", "config-update", "config-update:same-file-rewritten", "config-update:other-file",
+                         "config-update:inline-material")}
         kinds = {}
         for e in evs:
             if e["ev"] == "mgr":
@@ -134,7 +142,7 @@ def run(ctx):
             if e["ev"] == "mgr":
                 cur, upds = e, []
             elif e["ev"] == "upd":
-                upds = upds + [{k: e[k] for k in ("pos", "field", "val", "path", "kind")}]
+                upds = upds + [{k: e[k] for k in ("pos", "field", "val", "how", "path", "kind")}]
             mgr_at[i], upd_at[i] = cur, upds
         if first_sample:
             first_sample = False
